@@ -39,7 +39,7 @@ func (wrr *WeightedRoundRobinStrategy) NextBackend(r *http.Request) *Backend {
 
 	for _, wb := range wrr.backends {
 		// Only consider healthy backends
-		if wb.backend.IsHealthy {
+		if wb.backend.markedHealthy() {
 			totalWeight += wb.backend.Weight
 			wb.currentWeight += wb.backend.Weight
 
